@@ -32,8 +32,15 @@ from props import PROPS  # noqa: E402  (per-property registry)
 
 
 def sh(cmd, cwd=None, env=None, timeout=None, input=None):
-    p = subprocess.run(cmd, cwd=cwd, env=env, timeout=timeout, input=input, stdout=subprocess.PIPE, stderr=subprocess.STDOUT, text=True)
-    return p.returncode, p.stdout
+    """run a command; returns (exit status, combined output). A command that does not finish in time is killed: (124, …)."""
+    try:
+        p = subprocess.run(cmd, cwd=cwd, env=env, stdout=subprocess.PIPE, stderr=subprocess.STDOUT, text=True, timeout=timeout, input=input)
+        return p.returncode, p.stdout
+    except subprocess.TimeoutExpired as e:
+        out = e.stdout or ""
+        if isinstance(out, bytes):
+            out = out.decode("utf-8", "replace")
+        return 124, out + f"\n[killed: no result after {timeout} s] " + " ".join(map(str, cmd[:6]))
 
 
 class Lock:
@@ -166,10 +173,10 @@ def run_driver(prop, tier, seed, outdir):
     t0 = time.time()
     if "driver_cmd" in spec:
         cmd = [c.format(bin=BIN, out=outdir, tier=tier, seed=seed, root=ROOT, repo=REPO) for c in spec["driver_cmd"]]
-        rc, out = sh(cmd, cwd=spec.get("driver_cwd", ROOT).format(root=ROOT), env=env, timeout=spec.get("timeout", {}).get(tier, 3000))
+        rc, out = sh(cmd, cwd=spec.get("driver_cwd", ROOT).format(root=ROOT), env=env, timeout=spec.get("timeout", {}).get(tier, {"quick": 900}.get(tier, 3000)))
     else:
         rc, out = sh([os.path.join(BIN, "tdxdriver"), "-prop", spec.get("driver", prop), "-tier", tier, "-seed", str(seed), "-out", outdir], env=env,
-                     timeout=spec.get("timeout", {}).get(tier, 3000))
+                     timeout=spec.get("timeout", {}).get(tier, {"quick": 900}.get(tier, 3000)))
     return rc, out, time.time() - t0
 
 
@@ -329,7 +336,8 @@ def check(prop, tier, seed):
     elif disagreements or broken:
         # the property is no longer *shown* to hold: search harder for a concrete failing input
         found = None
-        if ok_h and tier != "thorough" and not spec.get("no_escalation"):
+        driver_died = any(b[0].startswith("correspondence driver") for b in broken)   # crashed or hung: the bigger run would too
+        if ok_h and tier != "thorough" and not spec.get("no_escalation") and not driver_died:
             sdir = os.path.join(WORK, f"{prop}-search-{seed}")
             rc, out, _ = run_driver(prop, "thorough", seed, sdir)
             if rc == 0 and os.path.exists(os.path.join(sdir, "meta.json")):
